@@ -151,7 +151,7 @@ func genHistory(t *rapid.T, n int, distinctRTD bool) []sample {
 var recLucky = ev.New("c17/lucky-packet", "rapid: capacity 1..32, pick 1..40 (and the zero-value filter), histories of 1..100 exchanges (true offset within +-1 day, one-way delays 0..2 s made pairwise distinct in round-trip delay, Reset() at generated positions); oracle: naive reference (last <=N samples since the last reset, k=min(pick,N,available) lowest exact round-trip delays, median of exact integer offsets; even count within 1 ns of the midpoint). One evaluation = one history. Non-trivial: history containing a full window with pick < capacity; distinct by history hash")
 
 func TestPropLucky(t *testing.T) {
-	vt.Check(t, 25000, 150000, func(t *rapid.T) {
+	vt.Check(t, 60000, 400000, func(t *rapid.T) {
 		c := luckyCase{
 			Cap:  rapid.OneOf(rapid.IntRange(1, 32), rapid.IntRange(1, 6)).Draw(t, "cap"),
 			Pick: rapid.OneOf(rapid.IntRange(1, 40), rapid.IntRange(1, 6)).Draw(t, "pick"),
@@ -317,7 +317,7 @@ func genNtimedHistory(t *rapid.T) []sample {
 }
 
 func TestPropNtimed(t *testing.T) {
-	vt.Check(t, 25000, 150000, func(t *rapid.T) {
+	vt.Check(t, 60000, 400000, func(t *rapid.T) {
 		c := ntimedCase{H: genNtimedHistory(t)}
 		ji, tails := checkNtimed(t, c)
 		b, _ := json.Marshal(c)
